@@ -19,7 +19,10 @@ import (
 // A case is a generated multi-line template with exactly one failing tag (kept on ONE line, except in
 // the separately bucketed multi-line sub-stream) at a line the generator knows, at top level or inside
 // if / else / for / fn / block-helper bodies (nested to depth 3), preceded by a mix of text, valid tags,
-// multi-line strings, # comments, <%# %> tags and complete earlier blocks.
+// multi-line strings, # comments, <%# %> tags and complete earlier blocks. The earlier material includes
+// multi-step histories: tags that render fine although a statement nested in them failed (an unknown
+// identifier inside a user function body, swallowed by ||, &&, ==, !=, ! or an if / else-if condition),
+// and blocks that a nested statement leaves early (break / continue / return).
 
 // ---- the data the templates run against (rebuilt for every render) ----
 
@@ -44,15 +47,29 @@ func c15Ctx() *plush.Context {
 // ---- failing tags ----
 
 type c15Fail struct {
-	kind    string // family of the fault
-	tag     string // the failing tag, on one line
-	runtime bool   // true: the error is raised while rendering; false: while parsing
-	noLoop  bool   // only an error outside a loop (break / continue)
-	unterm  bool   // input ends inside an unterminated string: any line from the tag to the end is accepted
-	needsFn bool   // the template starts with c15Prelude
+	kind     string // family of the fault
+	tag      string // the failing tag, on one line
+	runtime  bool   // true: the error is raised while rendering; false: while parsing
+	noLoop   bool   // only an error outside a loop (break / continue)
+	unterm   bool   // input ends inside an unterminated string: any line from the tag to the end is accepted
+	needsFn  bool   // the template starts with c15Prelude
+	needsBad bool   // the template starts with c15BadPrelude
 }
 
 const c15Prelude = "<% let okf = fn(a) { %>\n<%= a %>\n<% } %>\n"
+
+// a user function whose body fails with an unknown identifier (lines 1-3); callers swallow that error
+const c15BadPrelude = "<% let badf = fn() {\n return zzq\n} %>\n"
+
+func (f c15Fail) prelude() string {
+	switch {
+	case f.needsFn:
+		return c15Prelude
+	case f.needsBad:
+		return c15BadPrelude
+	}
+	return ""
+}
 
 var c15Big = strings.Repeat("9", 330)
 
@@ -86,6 +103,13 @@ var c15Fails = []c15Fail{
 	{kind: "fail-after-user-fn-call", tag: `<%= okf(1) + zzz %>`, runtime: true, needsFn: true},
 	{kind: "fail-after-user-fn-call", tag: `<% let q = okf(2) + fail() %>`, runtime: true, needsFn: true},
 	{kind: "fail-after-user-fn-call", tag: `<%= xs[okf(7)] %>`, runtime: true, needsFn: true},
+	// the fault follows, in the same tag, a call of a user function (lines 1-3, c15BadPrelude) whose body hit an
+	// unknown identifier; the language swallows that error (== nil, ||, !) and the tag fails for another reason
+	{kind: "fail-after-swallowed-fn-error", tag: `<%= xs[badf() == nil] %>`, runtime: true, needsBad: true},
+	{kind: "fail-after-swallowed-fn-error", tag: `<% let q = (badf() || 1) + zzz %>`, runtime: true, needsBad: true},
+	{kind: "fail-after-swallowed-fn-error", tag: `<%= (badf() == nil) + fail() %>`, runtime: true, needsBad: true},
+	{kind: "fail-after-swallowed-fn-error", tag: `<%= failArg(!badf()) %>`, runtime: true, needsBad: true},
+	{kind: "fail-after-swallowed-fn-error", tag: `<%= [badf() != nil, 2][3] %>`, runtime: true, needsBad: true},
 	// syntax faults
 	{kind: "missing-paren", tag: `<%= (1 + 2 %>`},
 	{kind: "missing-paren", tag: `<%= failArg(1 %>`},
@@ -168,6 +192,7 @@ type c15B struct {
 	nvar   int
 	simple bool  // after the failing tag: only quote-free single-purpose items
 	blocks []int // pairs (first line, last line) of complete blocks that end before the failing tag
+	swal   []int // pairs (first line, last line) of earlier user functions whose body fails; every caller swallows the error
 	fail   string
 	inLoop bool
 	desc   []string // containers around the failing tag, outermost first
@@ -232,6 +257,9 @@ func (b *c15B) validTag() {
 func (b *c15B) items(depth, max int) {
 	for n := b.r.Range(0, max); n > 0; n-- {
 		switch k := b.r.Intn(10); {
+		case !b.simple && b.r.Chance(6):
+			b.swallow()
+			b.sep()
 		case k < 4:
 			b.text()
 		case k < 8 || depth <= 0 || b.simple:
@@ -246,12 +274,42 @@ func (b *c15B) items(depth, max int) {
 
 func (b *c15B) validBlock(depth int) {
 	first := b.line()
-	switch b.r.Intn(5) {
+	switch b.r.Intn(7) {
 	case 0:
 		b.w(`<%= if (t) { %>`)
 		b.sep()
 		b.items(depth, 3)
 		b.w(`<% } %>`)
+	case 5:
+		// a loop body that a nested statement leaves early
+		b.w(`<%= for (x) in xs { %>`)
+		b.sep()
+		b.items(depth, 2)
+		b.w(Pick(b.r, []string{
+			`<% if (x == 2) { break } %>`,
+			`<% if (x == 2) { continue } %>`,
+			"<% if (x == 2) {\n continue\n} %>",
+			"<% if (x == 1) { %>\n<% continue %>\n<% } %>",
+			"<% if (x == 3) { %><% break %><% } %>",
+		}))
+		b.sep()
+		b.items(depth, 2)
+		b.w(`<% } %>`)
+	case 6:
+		// a function body that a nested statement leaves early
+		f := "f" + b.v()
+		if b.r.Chance(50) {
+			b.w("<% let " + f + " = fn(a) {\n if (a) {\n return 1\n }\n return 2\n} %>")
+		} else {
+			b.w(`<% let ` + f + ` = fn(a) { %>`)
+			b.sep()
+			b.w("<% if (a) { %>\n<% return 1 %>\n<% } %>")
+			b.sep()
+			b.items(depth, 2)
+			b.w(`<% } %>`)
+		}
+		b.sep()
+		b.w(`<%= ` + f + Pick(b.r, []string{`(t)`, `(false)`}) + ` %>`)
 	case 1:
 		b.w(`<%= if (false) { %>`)
 		b.sep()
@@ -284,6 +342,86 @@ func (b *c15B) validBlock(depth int) {
 	}
 }
 
+// swDef writes (or not) the definition of a user function whose body fails with an unknown identifier and
+// returns the expression whose evaluation raises that error: a call of the function, or the bare identifier.
+// form < 0: random.
+func (b *c15B) swDef(form int) string {
+	if form < 0 {
+		form = b.r.Intn(c15SwDefs)
+	}
+	if form == 0 {
+		return "zzq"
+	}
+	g := "g" + b.v()
+	call := g + "()"
+	first := b.line()
+	switch form {
+	case 1:
+		b.w("<% let " + g + " = fn() {\n return zzq\n} %>")
+	case 2:
+		b.w("<% let " + g + " = fn() { %>\n<%= zzq %>\n<% } %>")
+	case 3:
+		b.w("<% let " + g + " = fn(a) {\n let w = a\n if (a) {\n return zzq + w\n }\n} %>")
+		call = g + "(1)"
+	case 4:
+		b.w("<% let " + g + " = fn() { %>\ntext\n<%= for (x) in xs { %>\n<%= zzq %>\n<% } %>\n<% } %>")
+	case 5:
+		h := "h" + b.v()
+		b.w("<% let " + h + " = fn() {\n return zzq\n} %>\n<% let " + g + " = fn() {\n let w = 1\n return " + h + "()\n} %>")
+	}
+	if b.fail == "" {
+		b.swal = append(b.swal, first, b.line())
+	}
+	return call
+}
+
+const c15SwDefs = 6
+
+// in two of three cases the bare unknown identifier (no nested statement), else any form
+func (b *c15B) swDefOften0() string {
+	if b.r.Chance(66) {
+		return b.swDef(0)
+	}
+	return b.swDef(-1)
+}
+
+// the tags that swallow the unknown-identifier error of the expression C and render fine
+var c15SwUses = []string{
+	`<%= C || "d" %>`,
+	`<%= C == nil %>`,
+	`<%= C != nil %>`,
+	`<%= !C %>`,
+	`<% let V = C && t %>`,
+	`<%= if (C) { %>a<% } else { %>b<% } %>`,
+	`<%= if (false) { %>a<% } else if (C) { %>b<% } %>`,
+	`<% if (!C) { %>c<% } %>`,
+	`<%= n == C %>`,
+	`<%= t && C %>`,
+	`<% let V = false || C %>`,
+}
+
+func (b *c15B) swUse(i int, call string) {
+	u := strings.Replace(c15SwUses[i], "C", call, 1)
+	b.w(strings.Replace(u, "V", b.v(), 1))
+}
+
+// swallow: an earlier history in which a nested statement fails and the language swallows the error
+func (b *c15B) swallow() {
+	call := b.swDef(-1)
+	if call != "zzq" {
+		b.sep()
+		if b.r.Chance(30) {
+			b.text()
+		}
+	}
+	for n := b.r.Range(1, 2); n > 0; n-- {
+		b.swUse(b.r.Intn(len(c15SwUses)), call)
+		if n > 1 {
+			b.sep()
+		}
+	}
+}
+
 // emitFail writes the failing tag (as a marker) on one line, optionally with neighbours on that line.
 func (b *c15B) emitFail() {
 	if b.r.Chance(30) {
@@ -310,9 +448,9 @@ func (b *c15B) withFail(levels int, noLoop bool) {
 		b.items(0, 2)
 		return
 	}
-	kinds := []string{"if", "else", "for", "fn", "wrap", "elseif"}
+	kinds := []string{"if", "else", "for", "fn", "wrap", "elseif", "if-sw", "else-sw"}
 	if noLoop {
-		kinds = []string{"if", "else", "fn", "wrap", "for-fn", "elseif"}
+		kinds = []string{"if", "else", "fn", "wrap", "for-fn", "elseif", "if-sw", "else-sw"}
 	}
 	k := Pick(b.r, kinds)
 	b.desc = append(b.desc, k)
@@ -327,6 +465,29 @@ func (b *c15B) withFail(levels int, noLoop bool) {
 		b.sep()
 		b.items(1, 2)
 		b.w(`<% } else { %>`)
+		b.sep()
+		b.withFail(levels-1, noLoop)
+		b.w(`<% } %>`)
+	case "if-sw":
+		// the condition swallows the error of a nested statement, then the body holds the failing tag
+		call := b.swDefOften0()
+		if call != "zzq" {
+			b.sep()
+		}
+		b.w(`<%= if (` + Pick(b.r, []string{"!" + call, call + " == nil", call + " || t"}) + `) { %>`)
+		b.sep()
+		b.withFail(levels-1, noLoop)
+		b.w(`<% } %>`)
+	case "else-sw":
+		call := b.swDefOften0()
+		if call != "zzq" {
+			b.sep()
+		}
+		if b.r.Chance(50) {
+			b.w(`<%= if (` + call + `) { %>no<% } else { %>`)
+		} else {
+			b.w(`<%= if (` + call + `) { %>no<% } else if (` + call + ` == nil) { %>`)
+		}
 		b.sep()
 		b.withFail(levels-1, noLoop)
 		b.w(`<% } %>`)
@@ -380,18 +541,34 @@ type c15Case struct {
 	where   string // containers, e.g. "top", "if/for"
 	line    int    // line on which the failing tag begins
 	blocks  []int  // line ranges of complete blocks before it
+	swal    []int  // line ranges of earlier user functions whose body fails (the callers swallow the error)
 	tmpl    string
 	control string // same template with a benign tag in place of the failing one
 }
 
 func (c c15Case) text() string {
-	bl := make([]string, len(c.blocks))
-	for i, x := range c.blocks {
-		bl[i] = strconv.Itoa(x)
-	}
-	return fmt.Sprintf("kind=%s runtime=%v unterm=%v multi=%s where=%s line=%d blocks=%s control=%s tmpl=%s",
-		c.kind, c.runtime, c.unterm, c15dash(c.multi), c.where, c.line, c15dash(strings.Join(bl, ",")),
+	return fmt.Sprintf("kind=%s runtime=%v unterm=%v multi=%s where=%s line=%d blocks=%s swallowed=%s control=%s tmpl=%s",
+		c.kind, c.runtime, c.unterm, c15dash(c.multi), c.where, c.line, c15dash(c15Ints(c.blocks)), c15dash(c15Ints(c.swal)),
 		strconv.Quote(c.control), strconv.Quote(c.tmpl))
+}
+
+func c15Ints(xs []int) string {
+	ss := make([]string, len(xs))
+	for i, x := range xs {
+		ss[i] = strconv.Itoa(x)
+	}
+	return strings.Join(ss, ",")
+}
+
+func c15ParseInts(s string) (xs []int) {
+	if s == "-" || s == "" {
+		return nil
+	}
+	for _, x := range strings.Split(s, ",") {
+		n, _ := strconv.Atoi(x)
+		xs = append(xs, n)
+	}
+	return xs
 }
 
 func c15dash(s string) string {
@@ -401,7 +578,7 @@ func c15dash(s string) string {
 	return s
 }
 
-var c15CaseRe = regexp.MustCompile(`^kind=(\S+) runtime=(\S+) unterm=(\S+) multi=(\S+) where=(\S+) line=(\d+) blocks=(\S+) control=("(?:[^"\\]|\\.)*") tmpl=("(?:[^"\\]|\\.)*")$`)
+var c15CaseRe = regexp.MustCompile(`^kind=(\S+) runtime=(\S+) unterm=(\S+) multi=(\S+) where=(\S+) line=(\d+) blocks=(\S+)(?: swallowed=(\S+))? control=("(?:[^"\\]|\\.)*") tmpl=("(?:[^"\\]|\\.)*")$`)
 
 func c15Parse(s string) (c15Case, error) {
 	m := c15CaseRe.FindStringSubmatch(s)
@@ -418,17 +595,13 @@ func c15Parse(s string) (c15Case, error) {
 		c.multi = m[4]
 	}
 	c.line, _ = strconv.Atoi(m[6])
-	if m[7] != "-" {
-		for _, x := range strings.Split(m[7], ",") {
-			n, _ := strconv.Atoi(x)
-			c.blocks = append(c.blocks, n)
-		}
-	}
+	c.blocks = c15ParseInts(m[7])
+	c.swal = c15ParseInts(m[8])
 	var err error
-	if c.control, err = strconv.Unquote(m[8]); err != nil {
+	if c.control, err = strconv.Unquote(m[9]); err != nil {
 		return c, err
 	}
-	c.tmpl, err = strconv.Unquote(m[9])
+	c.tmpl, err = strconv.Unquote(m[10])
 	return c, err
 }
 
@@ -436,17 +609,15 @@ func c15Gen(r *Rng) c15Case {
 	b := &c15B{r: r}
 	var c c15Case
 	var tag string
-	noLoop, needsFn := false, false
+	noLoop, prelude := false, ""
 	if r.Chance(10) {
 		m := Pick(r, c15Multis)
 		c.kind, c.multi, c.runtime, tag = "multiline", m.variant, m.runtime, m.tag
 	} else {
 		f := Pick(r, c15Fails)
-		c.kind, c.runtime, c.unterm, tag, noLoop, needsFn = f.kind, f.runtime, f.unterm, f.tag, f.noLoop, f.needsFn
+		c.kind, c.runtime, c.unterm, tag, noLoop, prelude = f.kind, f.runtime, f.unterm, f.tag, f.noLoop, f.prelude()
 	}
-	if needsFn {
-		b.w(c15Prelude)
-	}
+	b.w(prelude)
 	levels := []int{0, 0, 0, 1, 1, 1, 2, 2, 3}[r.Intn(9)]
 	b.withFail(levels, noLoop)
 	raw := b.sb.String()
@@ -455,6 +626,7 @@ func c15Gen(r *Rng) c15Case {
 	c.tmpl = strings.Replace(raw, c15Mark, tag, 1)
 	c.control = strings.Replace(raw, c15Mark, "<%= n %>", 1)
 	c.blocks = b.blocks
+	c.swal = b.swal
 	c.where = "top"
 	if len(b.desc) > 0 {
 		c.where = strings.Join(b.desc, "/")
@@ -538,10 +710,15 @@ func c15Check(rep *Report, c c15Case) {
 		case n != c.line:
 			site := ""
 			switch {
+			case c.runtime && c15InBlocks(c.swal, n) && n < c.line:
+				// the line of a statement inside an EARLIER tag whose failure the language swallowed
+				site = "runtime-error-line-of-earlier-swallowed-stmt"
 			case c.multi != "":
 				site = "wrong-line-multiline-tag:" + c.multi + map[bool]string{true: ":render", false: ":parse"}[c.runtime]
 			case c.kind == "fail-after-user-fn-call" && n <= 3:
 				site = "runtime-error-line-of-callee-stmt"
+			case c.kind == "fail-after-swallowed-fn-error" && n <= 3:
+				site = "runtime-error-line-of-swallowed-callee-stmt"
 			case c.runtime && c15InBlocks(c.blocks, n) && n < c.line:
 				site = "runtime-error-line-of-last-inner-stmt"
 			case !c.runtime && n == c.line+1 && c15TagEndsLine(c):
@@ -622,11 +799,12 @@ func c15TagEndsLine(c c15Case) bool {
 func init() {
 	oracles["C15"] = func(cfg Config) []*Report {
 		rep := NewReport("C15", "C15", cfg)
-		rep.Rule = "multi-line templates with exactly one failing tag (72 single-line faults in 15 kinds: unknown identifier, failing helper, type error, index out of range, missing paren/brace/bracket, unexpected token, invalid if condition, invalid nested index, unexpected tag end, bad literal, break/continue outside a loop, a fault after a successful user-function call in the same tag, input ending in an unterminated string; 10% multi-line failing tags in families of their own) at a generator-known line, at top level or 1-3 levels inside if/else/else-if/for/fn/block-helper bodies, after a random mix of text, escaped tags, valid tags, multi-line \" and ` strings, # comments, <%# %> tags and complete earlier blocks; every case is rendered with 0,1,2,7 leading newlines; the same template with a benign tag in place of the failing one must render (else the case is skipped); non-trivial = all; distinct by template text; 100% reach the parser message / compile() error path"
+		rep.Rule = "multi-line templates with exactly one failing tag (77 single-line faults in 16 kinds: unknown identifier, failing helper, type error, index out of range, missing paren/brace/bracket, unexpected token, invalid if condition, invalid nested index, unexpected tag end, bad literal, break/continue outside a loop, a fault after a successful user-function call in the same tag, a fault after a user-function call in the same tag whose body failed with an unknown identifier that the language swallowed (== nil, ||, !), input ending in an unterminated string; 10% multi-line failing tags in families of their own) at a generator-known line, at top level or 1-3 levels inside if/else/else-if/for/fn/block-helper bodies (also if/else/else-if whose CONDITION swallows an unknown identifier, bare or raised inside a user function body), after a random mix of text, escaped tags, valid tags, multi-line \" and ` strings, # comments, <%# %> tags, complete earlier blocks (also loops / functions left early by break, continue, return) and multi-step histories (an earlier tag renders fine although a statement nested in a user function it calls failed with an unknown identifier that ||, &&, ==, !=, ! or an if / else-if condition swallowed; 6 shapes of failing function x 11 swallowing tags; every fault x every swallowing tag is also run once at top level); every case is rendered with 0,1,2,7 leading newlines; the same template with a benign tag in place of the failing one must render (else the case is skipped); non-trivial = all; distinct by template text; 100% reach the parser message / compile() error path"
 		rep.Notes = append(rep.Notes,
 			"not checked: faults that plush reports no error for (missing closing brace at EOF, unterminated string with nothing pending, `1 2`): C15 constrains returned errors only; they are counted under no-error:*",
 			"multi-message parser errors: only the first message's line is compared with the known line; follow-up messages must shift by k like the first",
 			"multi-line failing tags are generated in 10% of the cases and reported under wrong-line-multiline-tag:<variant> (the statement names the line on which the TAG begins)",
+			"multi-step histories: the earlier tags are valid by the oracle's own control (the template with a benign tag in place of the failing one must render without error); a wrong line that points into an earlier failing-function body is reported as runtime-error-line-of-earlier-swallowed-stmt, one that points into the body of a function called (and its error swallowed) by the failing tag itself as runtime-error-line-of-swallowed-callee-stmt",
 			"an error inside an else-if CONDITION or a partial is not generated (which tag 'contains the failing statement' is open there)")
 		if cfg.Arg != "" {
 			c, err := c15Parse(cfg.Arg)
@@ -641,9 +819,7 @@ func init() {
 		// every fault once at top level on line 1 and on line 3 (smallest cases first)
 		for _, f := range c15Fails {
 			for _, pre := range []string{"", "a\n\n"} {
-				if f.needsFn {
-					pre = c15Prelude + pre
-				}
+				pre = f.prelude() + pre
 				c15Check(rep, c15Case{kind: f.kind, runtime: f.runtime, unterm: f.unterm, where: "top",
 					line: 1 + strings.Count(pre, "\n"), tmpl: pre + f.tag + "\nz\n", control: pre + "<%= n %>\nz\n"})
 			}
@@ -652,7 +828,22 @@ func init() {
 			c15Check(rep, c15Case{kind: "multiline", multi: m.variant, runtime: m.runtime, where: "top",
 				line: 2, tmpl: "a\n" + m.tag + "\nz\n", control: "a\n<%= n %>\nz\n"})
 		}
-		n := cfg.N(20000, 400000)
+		// every fault at top level after every kind of tag that swallows the error of a nested statement
+		// (a multi-step history: the earlier tag renders fine, a statement inside it failed)
+		for i, f := range c15Fails {
+			for j := range c15SwUses {
+				b := &c15B{r: r}
+				b.w(f.prelude())
+				call := b.swDef(1 + (i+j)%(c15SwDefs-1))
+				b.w("\n")
+				b.swUse(j, call)
+				b.w("\na\n")
+				pre := b.sb.String()
+				c15Check(rep, c15Case{kind: f.kind, runtime: f.runtime, unterm: f.unterm, where: "top", swal: b.swal,
+					line: 1 + strings.Count(pre, "\n"), tmpl: pre + f.tag + "\nz\n", control: pre + "<%= n %>\nz\n"})
+			}
+		}
+		n := cfg.N(20000, 320000) // thorough: 320000 (was 400000) keeps the tier inside its 5 min budget now that the histories make templates ~20% longer
 		for i := 0; i < n && !rep.Full(); i++ {
 			c15Check(rep, c15Gen(r))
 		}
